@@ -33,7 +33,9 @@ func semverMatchDomain(sys semver.System) (reqs, cands []string) {
 	reqs = append(reqs, atoms...)
 	// compounds over a reduced atom list chosen so that bounds collide
 	small := []string{">=0.2", "<1", "<=1.2.3", ">0.0.3", "^0.2", "~1.2", "<2.0.0-0", ">=1.2.3-alpha", "1.x", "<0.2", ">1", "=1.2.3", ">=1", "<=1", "<1.2.3", ">1.2.3",
-		">=2.0.0", "<2", "^1.2.3", "~0.0.3", "^0.0.3", "^0.0", "~0", "<=0.2", ">=0.0.0", "<1.2.3-beta.2", ">1.2.3-alpha", "*", "0.x", "^2"}
+		">=2.0.0", "<2", "^1.2.3", "~0.0.3", "^0.0.3", "^0.0", "~0", "<=0.2", ">=0.0.0", "<1.2.3-beta.2", ">1.2.3-alpha", "*", "0.x", "^2",
+		// a lower bound that is the successor of another atom's excluded upper bound; prerelease bounds on two tuples
+		">=1.2.4", ">=0.0.4"}
 	if sys == semver.Cargo {
 		small = append(small, "1.2", "0.2.0", "0.0", "=1.2", "=0")
 	} else {
@@ -87,6 +89,21 @@ func semverMatchDomain(sys semver.System) (reqs, cands []string) {
 		}
 		reqs = append(reqs, "<0.2, ^0.2", ">=1, <1", ">1, <=1", ">=1.2.3, <=1.2.3", ">1.2.3, <1.2.3", ">=1.2.3-alpha, <1.2.3", "^0.0, <0.0.3", "", "*", "1.*", "1.2.*", ">=1.*")
 	}
+	// prerelease bounds on two different tuples (the candidate sits on the upper bound's tuple)
+	for _, lo := range []string{">=1.0.0-alpha", ">1.0.0-alpha", ">=1.2.3-alpha"} {
+		for _, hi := range []string{"<2.0.0-rc", "<=2.0.0-rc", "<2.0.0-rc.1"} {
+			reqs = append(reqs, lo+and+hi, hi+and+lo)
+		}
+	}
+	if sys != semver.Cargo {
+		reqs = append(reqs, "1.0.0-alpha - 2.0.0-rc", "1.2.3-alpha - 2.0.0-rc.1")
+		// an alternative that ends just below X and one that starts at X's successor: X itself is in neither
+		for _, x := range [][2]string{{"1.2.3", "1.2.4"}, {"2.0.0", "2.0.1"}, {"0.2.0", "0.2.1"}, {"1.0.0", "1.0.1"}} {
+			for _, lo := range []string{">=0.0.3", ">0.0.3"} {
+				reqs = append(reqs, lo+" <"+x[0]+" || >="+x[1], ">="+x[1]+" || "+lo+" <"+x[0], lo+" <"+x[0]+" || >"+x[0], lo+" <="+x[0]+" || >="+x[1], lo+" <"+x[0]+" || "+x[1]+" - 3", lo+" <"+x[0]+" || ^"+x[1])
+			}
+		}
+	}
 	reqs = dedup(reqs)
 	// candidates: neighbours of every number occurring in the operands, completed to three components
 	seen := map[string]bool{}
@@ -106,7 +123,7 @@ func semverMatchDomain(sys semver.System) (reqs, cands []string) {
 			add(nb)
 		}
 	}
-	for _, g := range []string{"0.0.0-0", "0.0.0", "0.0.0-alpha", "999999.999999.999999", "1.2.3-beta.2", "1.2.3-beta.11", "1.2.3-alpha.1", "2.5.0-rc", "2.5.0-rc.1", "1.0.0+b"} {
+	for _, g := range []string{"0.0.0-0", "0.0.0", "0.0.0-alpha", "999999.999999.999999", "1.2.3-beta.2", "1.2.3-beta.11", "1.2.3-alpha.1", "2.5.0-rc", "2.5.0-rc.1", "1.0.0+b", "2.0.0-beta", "2.0.0-rc", "2.0.0-rc.1", "1.0.0-alpha", "1.0.0-beta", "1.2.4", "0.0.4"} {
 		add(g)
 	}
 	sort.Strings(cands)
